@@ -26,7 +26,8 @@ VARIABLES
     now,        \* seconds
     cur,        \* current version id
     content,    \* [version id -> <<label, diagnosis-free>>]  every version ever installed
-    loaded,     \* label of the configuration last loaded from the policies file (what the reverts restore)
+    loaded,     \* labels the configuration last loaded from the policies file may have (what the reverts restore);
+                \* one label, or two after a reload that failed after reading the file
     retained,   \* version ids the gateway holds (observed)
     hyp,        \* [transaction -> set of hypotheses]; NoneH = not known to the gateway
     last
@@ -51,26 +52,31 @@ ObserveLookup(x, r, c, CS) ==
                 ok |-> (r \in DOMAIN content /\ content[r] = c /\ AfterLookup(x, r, CS) # {})]
     /\ UNCHANGED <<now, cur, content, loaded>>
 
-Lookup(x, r, c) ==
+LookupCS(x, r, c, CS) ==
     /\ r \in DOMAIN content /\ content[r] = c
-    /\ AfterLookup(x, r, {cur}) # {}
-    /\ ObserveLookup(x, r, c, {cur})
+    /\ AfterLookup(x, r, CS) # {}
+    /\ ObserveLookup(x, r, c, CS)
 
-Expected(op, L) ==
-    CASE op = "apply"  -> <<L, FALSE>>
-      [] op = "reload" -> <<L, FALSE>>
-      [] op = "revdf"  -> <<loaded, TRUE>>
-      [] op = "revll"  -> <<loaded, FALSE>>
+Lookup(x, r, c) == LookupCS(x, r, c, {cur})
 
-\* a successful update installs a new current version with the expected content; a failed one changes nothing
+\* content a successful update installs
+ExpectedOK(op, L, c) ==
+    CASE op = "apply"  -> c = <<L, FALSE>>
+      [] op = "reload" -> c = <<L, FALSE>>
+      [] op = "revdf"  -> c[2] = TRUE /\ c[1] \in loaded
+      [] op = "revll"  -> c[2] = FALSE /\ c[1] \in loaded
+
+\* a successful update installs a new current version with the expected content; a failed one (the proxy refused the
+\* new endpoints) leaves the versions alone - a failed reload may or may not have replaced the loaded configuration
 Update(op, L, ok, newcur, c) ==
     /\ IF ok
        THEN /\ newcur \notin DOMAIN content /\ newcur > cur
-            /\ c = Expected(op, L)
+            /\ ExpectedOK(op, L, c)
             /\ cur' = newcur
             /\ content' = [v \in DOMAIN content \cup {newcur} |-> IF v = newcur THEN c ELSE content[v]]
-            /\ loaded' = IF op = "reload" THEN L ELSE loaded
-       ELSE /\ newcur = cur /\ UNCHANGED <<cur, content, loaded>>
+            /\ loaded' = IF op = "reload" THEN {L} ELSE loaded
+       ELSE /\ newcur = cur /\ UNCHANGED <<cur, content>>
+            /\ loaded' = IF op = "reload" THEN loaded \cup {L} ELSE loaded
     /\ last' = [ev |-> "update", op |-> op, ok |-> TRUE]
     /\ UNCHANGED <<now, hyp>>
 
